@@ -22,15 +22,19 @@ from ..ref import cov as rcov
 
 ID = 'C06'
 LEVEL = 'exploration'
-DECIDING = ['tap:covariance', 'cov_calls_judged', 'pearson_pairs', 'permutations_judged', 'external_JSJ_judged',
+DECIDING = ['tap:covariance', 'cov_calls_judged', 'scale_sweeps_judged', 'histories_judged', 'pearson_pairs', 'permutations_judged', 'external_JSJ_judged',
             'chol_judged', 'sort_corr_judged', 'smooth_judged', 'error_band_judged']
 RULE = ('cases: lists of 2/3/5/8 analysed observables with support {one chain, replicas (subsets), two ensembles, covariance inputs only, '
         'mixed} x list relation {identical, nested, overlapping} (primaries and derived quantities, lengths 12-60 quick / up to 300 '
         'thorough, random S / tau_exp / N_sigma per observable), output cov / corr / every admissible smoothing E, random permutations, '
-        'an observable with disjoint support mixed in; helper rows for invert_corr_cov_cholesky, sort_corr, smoothing admissibility and '
-        'error_band; non-trivial: an off-diagonal entry with |corr| in (0.05, 0.95) was compared with the reference (helpers: a matrix '
+        'an observable with disjoint support mixed in; scale sweep (each observable multiplied by +-10^k, k in -8..8, judged by the same '
+        'reference with tolerances relative to err_i err_j, plus cov(c_i a, c_j b) = c_i c_j cov(a, b)); call histories with twin lists '
+        'sharing length / first / last member; helper rows for invert_corr_cov_cholesky, sort_corr, smoothing admissibility and '
+        'error_band (parameter errors from 1e-10 to 1e2, homogeneity for linear models); non-trivial: an off-diagonal entry with |corr| in (0.05, 0.95) was compared with the reference (helpers: a matrix '
         'with such an entry went through the helper); distinct = digest of the observables\' data, errors and options')
-ASSUMPTIONS = ['covariance = window-0 correlation on the common configurations rescaled by the analysed errors (documented definition)',
+ASSUMPTIONS = ['scaling relations (cov(c_i a, c_j b) = c_i c_j cov(a, b), homogeneity of error_band) are judged for one chain / replicas / several ensembles / '
+               'purely external inputs; for observables mixing Monte Carlo chains and covariance inputs they are counted only (not stated by the property)',
+               'covariance = window-0 correlation on the common configurations rescaled by the analysed errors (documented definition)',
                'admissible smoothing parameter: 2 < E < dim - 1 (the end points named in the documentation are counted, not judged)',
                'positive semi-definiteness is only judged for a single chain with identical lists and for purely external inputs',
                'reference vs library: correlation atol 1e-10, covariance rtol 1e-9 of err_i err_j; helpers scaled by the condition number',
@@ -505,6 +509,113 @@ def case_cov(ctx, rng, size, support, relation):
                 'params': L['params'], 'errors': errs, 'corr_row0': R[0]})
 
 
+def has_mc_and_external(obs):
+    """some member has Monte Carlo chains AND covariance inputs with a non-zero gradient"""
+    for o in obs:
+        sn_ = snap(o)
+        if sn_['chains'] and any(np.any(v[1] != 0) and np.any(v[0] != 0) for v in sn_['cov'].values()):
+            return True
+    return False
+
+
+def scaling_relations(ctx, judge, obs, what):
+    """judge(c) records violations of a scaling relation into the context c.  The property does not state unit covariance for
+    observables that mix Monte Carlo chains and covariance inputs (the documented construction adds the dimensionful
+    g^T Sigma g to dimensionless per-ensemble correlations): for such lists the relation is evaluated but only counted."""
+    if not has_mc_and_external(obs):
+        judge(ctx)
+        return
+    t = ctx.trial()
+    judge(t)
+    ctx.count('scaling_relation_not_judged_for_mixed_support')
+    if t.violations:
+        ctx.count('scaling_relation_observed_to_fail_for_mixed_support')
+
+
+def case_scale(ctx, rng, support, relation):
+    """Scale sweep: the same configuration of observables multiplied by c_i in +-10^(-8..8) (values and fluctuations) is judged by
+    the same reference (monitor, tolerances relative to err_i err_j) and must satisfy cov(c_i a, c_j b) = c_i c_j cov(a, b) with the
+    correlation unchanged up to sign(c_i c_j)."""
+    pe = PE
+    size = int(rng.choice([2, 3, 5]))
+    L = build_list(ctx, rng, size, support, relation)
+    obs = L['obs']
+    n = len(obs)
+    mode = str(rng.choice(['common', 'individual']))
+    if mode == 'common':
+        cs = np.full(n, float(rng.choice([-1, 1])) * float(10.0 ** rng.integers(-8, 9)))
+    else:
+        cs = rng.choice([-1.0, 1.0], size=n) * 10.0 ** rng.integers(-8, 9, size=n)
+    ctx.cell('scale', support, relation, mode)
+    for c in cs:
+        ctx.cell('scale_decade', int(round(math.log10(abs(c)))))
+    C = pe.covariance(obs)
+    R = pe.covariance(obs, correlation=True)
+    errs = np.array([o.dvalue for o in obs])
+    obs2 = [float(c) * o for c, o in zip(cs, obs)]
+    for o2, kw in zip(obs2, L['params']):
+        o2.gamma_method(**kw)
+    errs2 = np.array([o.dvalue for o in obs2])
+    C2 = pe.covariance(obs2)                               # each call is judged by the monitor
+    R2 = pe.covariance(obs2, correlation=True)
+    sg = np.outer(np.sign(cs), np.sign(cs))
+    ctx.count('scale_sweeps_judged')
+    what = 'support %s relation %s factors %r' % (support, relation, cs.tolist())
+    same_windows = bool(np.all(np.abs(errs2 / (np.abs(cs) * errs) - 1) < 1e-9))
+    if not same_windows:
+        ctx.count('scale_window_decision_changed')
+    smoothed = None
+    if n >= 5:
+        E = int(rng.choice(rcov.admissible_E(n)[0]))
+        smoothed = (E, pe.covariance(obs, correlation=True, smooth=E), pe.covariance(obs2, correlation=True, smooth=E))
+
+    def judge(c):
+        c.close(R2, R * sg, 'correlation:changes-under-rescaling-of-the-observables', what, rtol=0, atol=1e-10)
+        if same_windows:
+            c.close(C2 / (np.outer(cs, cs) * np.outer(errs, errs)), C / np.outer(errs, errs), 'covariance:not-homogeneous-of-degree-two-under-rescaling',
+                    what, rtol=0, atol=1e-9)
+        if smoothed is not None:
+            c.close(smoothed[2] * sg, smoothed[1], 'smooth:changes-under-rescaling-of-the-observables', what + ' E=%d' % smoothed[0], rtol=0, atol=1e-8)
+    scaling_relations(ctx, judge, obs, what)
+    off = np.abs(R[~np.eye(n, dtype=bool)])
+    if np.any((off > 0.05) & (off < 0.95)):
+        ctx.nontrivial.add(digest('scale', cs, R))
+    ctx.sample({'scale_sweep': cs, 'support': support, 'relation': relation, 'errors': errs, 'errors_scaled': errs2})
+
+
+def case_history(ctx, rng):
+    """Two different lists that share length, first and last observable (and chain names / lengths of every member): the results must
+    not depend on what was computed before (identity- or summary-keyed caching)."""
+    pe = PE
+    support = str(rng.choice(['one_chain', 'two_ens', 'mixed', 'cov_only']))
+    L = build_list(ctx, rng, int(rng.choice([3, 5])), support, str(rng.choice(RELATIONS)))
+    obs = L['obs']
+    n = len(obs)
+    twin = list(obs)
+    k = int(rng.integers(1, n - 1))
+    how = str(rng.choice(['swap_interior', 'rescaled_member', 'copy_of_member']))
+    if how == 'swap_interior' and n >= 4:
+        j = k % (n - 2) + 1
+        j = j if j != k else (k % (n - 2)) + 1
+        twin[k], twin[j] = twin[j], twin[k]
+    elif how == 'copy_of_member':
+        twin[k] = 1.0 * obs[k]                                # equal data, different object
+        twin[k].gamma_method(**L['params'][k])
+    else:
+        twin[k] = -0.5 * obs[k]                               # same names, lists and lengths, different data
+        twin[k].gamma_method(**L['params'][k])
+    ctx.cell('history', support, how)
+    kw = dict(correlation=bool(rng.integers(0, 2)))
+    first = pe.covariance(obs, **kw)
+    other = pe.covariance(twin, **kw)                         # every call is judged by the monitor
+    again = pe.covariance(obs, **kw)
+    ctx.count('histories_judged')
+    ctx.require(np.array_equal(first, again), 'covariance:result-depends-on-call-history', {'support': support, 'how': how})
+    if how == 'copy_of_member':
+        ctx.close(other, first, 'covariance:equal-data-in-a-different-object-gives-a-different-result', how, rtol=1e-13)
+    ctx.nontrivial.add(digest('history', first, other))
+
+
 def case_unanalysed(ctx, rng):
     pe = PE
     L = build_list(ctx, rng, 3, 'one_chain', 'nested')
@@ -651,12 +762,18 @@ def case_error_band(ctx, rng):
     ctx.cell('helper', 'error_band', name, support)
     # parameters: observables with values of order one and correlated errors
     L = build_list(ctx, rng, k, support, 'identical' if support in ('one_chain', 'replicas') else str(rng.choice(RELATIONS)))
+    # size of the parameter errors: swept over many decades (all judgements are relative to it)
+    esize = 0.05 if rng.random() < 0.35 else float(10.0 ** rng.integers(-10, 2)) * float(rng.uniform(1, 9))
+    ctx.cell('helper', 'error_band_error_decade', int(math.floor(math.log10(esize))))
     beta = []
+    svals = []
     for o in L['obs']:
         target = float(rng.uniform(0.4, 1.6))
-        b = o * (0.05 / o.dvalue) if o.dvalue > 0 else o
+        b = o * (esize / o.dvalue) if o.dvalue > 0 else o
         b = b - b.value + target
-        b.gamma_method(S=float(rng.choice([0, 1, 2])))
+        sval = float(rng.choice([0, 1, 2]))
+        b.gamma_method(S=sval)
+        svals.append(sval)
         beta.append(b)
     xs = np.sort(rng.uniform(0.0, 3.0, size=int(rng.integers(1, 6))))
     snaps = [snap(b) for b in beta]
@@ -671,11 +788,26 @@ def case_error_band(ctx, rng):
     arg_x = xs if rng.random() < 0.5 else list(xs)
     got = pe.fits.error_band(arg_x, f_lib, beta)
     ctx.count('error_band_judged')
-    ctx.close(np.asarray(got, dtype=float), exp, 'error_band:differs-from-sqrt-gT-C-g', 'model %s support %s' % (name, support), rtol=1e-8)
+    ctx.close(np.asarray(got, dtype=float), exp, 'error_band:differs-from-sqrt-gT-C-g', 'model %s support %s error size %.1e' % (name, support, esize), rtol=1e-8)
+    # models that are linear in the parameters: the band is homogeneous of degree one in the parameters
+    if name in ('linear', 'quadratic'):
+        c = float(rng.choice([-1, 1])) * float(10.0 ** rng.integers(-8, 9))
+        beta2 = [c * b for b in beta]
+        for b2, sval in zip(beta2, svals):
+            b2.gamma_method(S=sval)
+        if all(abs(b2.dvalue / (abs(c) * b.dvalue) - 1) < 1e-9 for b, b2 in zip(beta, beta2)):
+            got2 = pe.fits.error_band(arg_x, f_lib, beta2)
+            ctx.count('error_band_scaling_judged')
+            scaling_relations(ctx, lambda cc: cc.close(np.asarray(got2, dtype=float) / abs(c), np.asarray(got, dtype=float),
+                                                        'error_band:not-homogeneous-in-the-parameters-of-a-linear-model',
+                                                        'model %s c=%g error size %.1e' % (name, c, esize), rtol=1e-8),
+                              beta, 'error_band model %s c=%g' % (name, c))
+        else:
+            ctx.count('scale_window_decision_changed')
     off = np.abs(corr[~np.eye(k, dtype=bool)])
     if np.any((off > 0.05) & (off < 0.95)):
         ctx.nontrivial.add(digest('band', name, xs, cov))
-    ctx.sample({'helper': 'error_band', 'model': name, 'x': xs, 'beta': [b.value for b in beta], 'band': exp})
+    ctx.sample({'helper': 'error_band', 'error_size': esize, 'model': name, 'x': xs, 'beta': [b.value for b in beta], 'band': exp})
 
 
 # ------------------------------------------------------------------------------------------
@@ -701,6 +833,10 @@ def plan(tier):
             for rel in rels:
                 reps = {2: 8, 3: 7, 5: 5, 8: 3}[size] * (3 if sup == 'cov_only' else (2 if sup == 'one_chain' else 1))
                 p.append(('cov:%d:%s:%s' % (size, sup, rel), reps * m))
+    for sup in SUPPORTS:
+        for rel in (RELATIONS if sup != 'cov_only' else ['identical']):
+            p.append(('scale:%s:%s' % (sup, rel), 8 * m))
+    p.append(('history', 40 * m))
     p.append(('unanalysed', 5 * m))
     p.append(('chol', 100 * m))
     p.append(('sort_corr', 100 * m))
@@ -712,6 +848,10 @@ def run_case(ctx, kind, idx, rng):
     k = kind.split(':')
     if k[0] == 'cov':
         case_cov(ctx, rng, int(k[1]), k[2], k[3])
+    elif k[0] == 'scale':
+        case_scale(ctx, rng, k[1], k[2])
+    elif k[0] == 'history':
+        case_history(ctx, rng)
     elif k[0] == 'unanalysed':
         case_unanalysed(ctx, rng)
     elif k[0] == 'chol':
